@@ -29,6 +29,7 @@ m = dict(version=1, setup_cmd='./setup.sh',
                     source_commits=['230fa9c', 'a0b62a4', '941fad0'], add_only=True),
          engines=[dict(name='coq', path='coq/', serves_properties=[c['property_id'] for c in checks], kind_free_text='Coq 8.16 development: model, specification, theorems, checker (extracted to OCaml)'),
                   dict(name='harness', path='harness/', serves_properties=[c['property_id'] for c in checks], kind_free_text='Rust harness executing operation scripts on /repo built with the verif feature'),
+                  dict(name='harness-oci', path='harness-oci/', serves_properties=['C17'], kind_free_text='links the OCI example crate, starts its own server on a loopback socket, one HTTP request per script line'),
                   dict(name='gen_formats', path='tools/gen_formats.py', serves_properties=['C14', 'C19'], kind_free_text='translator: Display format strings of the error enums -> coq/Gen/Formats.v, regenerated every run')],
          checks=checks,
          notes='See DESIGN.md. Fix commits in /repo: f5e794d c982dd6 39002fb 0db4818 ba74819 93e6281 ca58e30 (known-findings.txt).',
